@@ -135,12 +135,26 @@ class event_occurrence
         return m_marked_for_deletion;
     }
 
+    // Completion event occurrences take precedence over
+    // every other pending event occurrence.
+    bool is_completion_event() const
+    {
+        return m_is_completion_event;
+    }
+
+  protected:
+    void set_completion_event()
+    {
+        m_is_completion_event = true;
+    }
+
   private:
     process_fn_t m_process_fn{};
     // Flag set when this event has been processed and can be erased.
     // Deletion is deferred to allow the use of std::deque,
     // which provides better cache locality and lower per-element overhead.
     bool m_marked_for_deletion{};
+    bool m_is_completion_event{};
 };
 
 template <typename Event>
